@@ -34,6 +34,14 @@ class EMI(EAB, EX):
     pass
 
 
+class EFALSY(EA):
+    """a well-behaved exception whose instances are falsy (a collection of
+    problems that happens to be empty)"""
+
+    def __len__(self):
+        return 0
+
+
 class ETY(EA, TypeError):
     """application error that is also one of Python's own classes"""
 
@@ -43,7 +51,7 @@ class ETY(EA, TypeError):
 EAB_X = type('EAB', (EX,), {})
 EX_A = type('EX', (EA,), {})
 
-EXC = {c.__name__: c for c in (EA, EAB, EABC, EX, EMI, ETY, KeyError, LookupError,
+EXC = {c.__name__: c for c in (EA, EAB, EABC, EX, EMI, ETY, EFALSY, KeyError, LookupError,
                                ValueError, IndexError, AttributeError,
                                TypeError, RuntimeError, ZeroDivisionError,
                                KeyboardInterrupt, Exception)}
